@@ -5,6 +5,7 @@ pub mod net;
 pub mod votes;
 pub mod pool_driver;
 pub mod pool_model;
+pub mod shreds;
 pub mod world;
 
 use std::sync::OnceLock;
